@@ -2,11 +2,12 @@
    This file holds ONLY the statements of the property theorems, each closed by `exact <lemma>`, and
    `Print Assumptions` beneath.  Model: Model/Ser.v (serialization/serializer.go, types/basiccollector.go,
    serialization/deserializer.go) and Model/SerAttrs.v (the attribute route: serializer.go:327-353, attributesinfo.go
-   PositionalFromHash, objectvalue.go fillValueSlice).  Proofs: Proofs/SerAttrsProofs.v, Proofs/SerProofs.v (simulation serializer state / collector
+   PositionalFromHash, objectvalue.go fillValueSlice).  Proofs: Proofs/SerAttrsProofs.v, Proofs/SerReentProofs.v
+   (conversions that overlap on one Serializer object, Model/SerReent.v), Proofs/SerProofs.v (simulation serializer state / collector
    state), Proofs/SerWfProofs.v (stream well-formedness), Proofs/SerDeserProofs.v (deserializer). *)
 From Coq Require Import ZArith NArith Bool List.
-From PcoreV Require Import Model.Base Model.Ser Model.SerAttrs Proofs.SerProofs Proofs.SerWfProofs Proofs.SerDeserProofs
-  Proofs.SerAttrsProofs.
+From PcoreV Require Import Model.Base Model.Ser Model.SerAttrs Model.SerReent Proofs.SerProofs Proofs.SerWfProofs
+  Proofs.SerDeserProofs Proofs.SerAttrsProofs Proofs.SerReentProofs.
 Import ListNotations.
 
 (* ---- the stream is well formed: for EVERY value (no assumption on the identity tags) and every point of
@@ -299,4 +300,73 @@ Example C10_ex_attr_route :
           (VObjT 9 (VStr [72]%N) 0 ex_attrs [104]%N))
        (fun p => fill ex_decls (pobj_attrs p))
   = Ok [erase ex_any; erase ex_rec; erase ex_sz].
+Proof. vm_compute. reflexivity. Qed.
+
+(* ---- one Serializer object, conversions that overlap (Model/SerReent.v) ----
+   "A Serializer is a re-entrant fully configured serializer" (serializer.go:19): NewSerializer makes the object
+   once; any number of Convert calls are entered on it (Start), each delivering its events to its own consumer
+   one at a time in ANY order relative to the others (Deliver i) - a Convert called from inside a consumer
+   callback of another conversion (the LIFO schedules), or from another goroutine while the first is held.
+   run = the world after a schedule (None: the schedule asks a conversion that has returned for another event).
+   What makes the statements true of the model is that Convert keeps everything a conversion writes (the map
+   value -> position, refIndex, the lowered de-duplication level) in a context of its own (serializer.go:63-68);
+   that the code does so is what the correspondence run checks (reent_check, schedules observed on the
+   implementation). *)
+
+(* NewSerializer followed by one Convert is the `serialize` of all theorems above *)
+Theorem C10_convert_is_serialize :
+  forall (payload : Type) (to_s : str -> payload -> str) (o : opts) (c : caps) (x : @rvalue payload),
+    convert to_s (new_serializer o) c x = serialize to_s o c x.
+Proof. exact @convert_new. Qed.
+Print Assumptions C10_convert_is_serialize.
+
+(* for EVERY schedule: the conversions of the world are the ones entered, in order; what each consumer has
+   received followed by what it will still receive is the stream of its own conversion run alone *)
+Theorem C10_reentrant_streams :
+  forall (payload : Type) (to_s : str -> payload -> str) (o : opts) (acts : list (@action payload))
+         (w : @world payload),
+    run to_s (world0 o) acts = Some w ->
+    conv_heads (w_convs w) = conv_starts acts /\
+    Forall (fun cv => cv_done cv ++ cv_todo cv = serialize to_s o (cv_caps cv) (cv_val cv)) (w_convs w).
+Proof. intros payload to_s o acts w Hr. split; [exact (reent_conversions to_s o acts w Hr)|exact (reent_streams to_s o acts w Hr)]. Qed.
+Print Assumptions C10_reentrant_streams.
+
+(* ... so a conversion that has returned delivered a well-formed stream, whatever ran in between *)
+Theorem C10_reentrant_stream_wf :
+  forall (payload : Type) (to_s : str -> payload -> str) (o : opts) (acts : list (@action payload))
+         (w : @world payload) (cv : conv),
+    run to_s (world0 o) acts = Some w -> In cv (w_convs w) -> finished cv = true ->
+    cv_done cv = serialize to_s o (cv_caps cv) (cv_val cv) /\
+    wf_stream (env_of o (cv_caps cv)) (cv_done cv) = true.
+Proof.
+  intros payload to_s o acts w cv Hr Hin Hf.
+  split; [exact (reent_finished to_s o acts w cv Hr Hin Hf)|exact (reent_stream_wf to_s o acts w cv Hr Hin Hf)].
+Qed.
+Print Assumptions C10_reentrant_stream_wf.
+
+(* ... and its consumer (collector + deserializer) rebuilds its value: the round trip of C10_roundtrip for every
+   conversion of every schedule, under the same hypotheses and the same guard *)
+Theorem C10_reentrant_roundtrip :
+  forall (payload : Type) (to_s : str -> payload -> str) (of_s : str -> str -> option payload),
+    (forall tn p, of_s tn (to_s tn p) = Some p) ->
+    forall (o : opts) (acts : list (@action payload)) (w : @world payload) (cv : conv),
+      run to_s (world0 o) acts = Some w -> In cv (w_convs w) -> finished cv = true ->
+      wf_rich (cv_val cv) -> rt_ok to_s (env_of o (cv_caps cv)) (cv_val cv) = true ->
+      bind (collect (cv_done cv)) (deser of_s) = Ok (expected (env_of o (cv_caps cv)) (cv_val cv)).
+Proof. exact @reent_roundtrip. Qed.
+Print Assumptions C10_reentrant_roundtrip.
+
+(* non-vacuity: ['only', s, s] is being converted; after its consumer has received 2 events, [s] is converted
+   completely on the same object (a consumer that cannot do complex keys, so its de-duplication level is lowered
+   for that conversion only); the first conversion then goes on: its second s is a reference to ITS position 2 *)
+Definition ex_s : str := [115; 104; 97; 114; 101; 100]%N.
+Definition ex_first : @rvalue str := VArr 1 [VStr [111]%N; VStr ex_s; VStr ex_s]%N.
+Definition ex_other : @rvalue str := VArr 2 [VStr ex_s]%N.
+
+Example C10_ex_reentrant :
+  option_map (fun w => map (fun cv => (cv_done cv, finished cv)) (w_convs w))
+    (run (fun _ (p : str) => p) (world0 (mkopts true true 2))
+       (nested_schedule (mkcaps true true 3) ex_first 2 (mkcaps true false 3) ex_other 3 3)) =
+  Some [([EArr 3; EAdd (DStr [111]%N); EAdd (DStr ex_s); ERef 2; EEnd], true);
+        ([EArr 1; EAdd (DStr ex_s); EEnd], true)].
 Proof. vm_compute. reflexivity. Qed.
